@@ -560,6 +560,69 @@ func init() {
 	})
 }
 
+// a counter brought next to an int64 boundary and then moved onto, or just past, it
+func (g *Gen) counterBoundary(c int) []Op {
+	k := g.key()
+	max := new(big.Int).Sub(new(big.Int).Lsh(big.NewInt(1), 63), big.NewInt(1))
+	min := new(big.Int).Neg(new(big.Int).Lsh(big.NewInt(1), 63))
+	dist := int64(g.r.Intn(4)) // distance from the boundary before the step
+	step := dist + int64(g.r.Intn(3)) - 1 // lands one short of, on, or one past the boundary
+	if step < 0 {
+		step = 0
+	}
+	var ops []Op
+	if g.chance(0.5) {
+		v := new(big.Int).Sub(max, big.NewInt(dist))
+		ops = append(ops, mkOp(c, "SET", k, v.String()))
+		switch {
+		case step == 1 && g.chance(0.5):
+			ops = append(ops, mkOp(c, g.kw("incr"), k))
+		case g.chance(0.5):
+			ops = append(ops, mkOp(c, g.kw("incrby"), k, fmt.Sprint(step)))
+		default:
+			ops = append(ops, mkOp(c, g.kw("decrby"), k, fmt.Sprint(-step)))
+		}
+	} else {
+		v := new(big.Int).Add(min, big.NewInt(dist))
+		ops = append(ops, mkOp(c, "SET", k, v.String()))
+		switch {
+		case step == 1 && g.chance(0.5):
+			ops = append(ops, mkOp(c, g.kw("decr"), k))
+		case g.chance(0.5):
+			ops = append(ops, mkOp(c, g.kw("decrby"), k, fmt.Sprint(step)))
+		default:
+			ops = append(ops, mkOp(c, g.kw("incrby"), k, fmt.Sprint(-step)))
+		}
+	}
+	ops = append(ops, mkOp(c, "GET", k))
+	return ops
+}
+
+// the same for a hash field
+func (g *Gen) hcounterBoundary(c int) []Op {
+	ops := g.counterBoundary(c)
+	k, f := g.key(), g.field()
+	v := string(ops[0].bytesArgs()[2])
+	a := ops[1].bytesArgs()
+	delta := "1"
+	name := strings.ToLower(string(a[0]))
+	switch name {
+	case "incr":
+		delta = "1"
+	case "decr":
+		delta = "-1"
+	case "incrby":
+		delta = string(a[2])
+	case "decrby":
+		if strings.HasPrefix(string(a[2]), "-") {
+			delta = string(a[2])[1:]
+		} else {
+			delta = "-" + string(a[2])
+		}
+	}
+	return []Op{mkOp(c, "DEL", k), mkOp(c, "HSET", k, f, v), mkOp(c, g.kw("hincrby"), k, f, delta), mkOp(c, "HGET", k, f)}
+}
+
 // binary-rich strings as values for string-typed keys (bitmaps)
 var bitVals = []string{"\x00", "\xff", "\x0f\xf0", "\x80\x01", "\x00\x00\x00", "\xff\xff\xff", "\xaa\x55\xaa", "a", "\x12\x34\x56\x78\x9a"}
 
